@@ -103,6 +103,11 @@ def run(ctx):
             lock = J(rng.choice(cand or dirs)).encode()
         elif lk < 0.7 and dirs:
             lock = (J(rng.choice(dirs))[:-1] + "\n").encode()  # a prefix of a real name
+        elif lk < 0.8 and dirs:
+            # the lock of another root, a bare name, a path below an invocation: the last component is the name
+            # of an entry of this root, the path is not
+            n_ = rng.choice(dirs)
+            lock = (rng.choice(["/some/other/root/" + n_, n_, J(rng.choice(dirs)) + "/" + n_, "./" + n_]) + "\n").encode()
         if lock is not None:
             with open(os.path.join(root, ".running"), "wb") as f:
                 f.write(lock)
